@@ -59,7 +59,7 @@ fn check_cover(t: [(f32, f32); 3], r: &mut Report, fam: &str) {
     let case = || obj! {"kind" => "cover", "fam" => fam, "t" => J::Arr(t.iter().flat_map(|p| [fbits(p.0), fbits(p.1)]).collect())};
     let sls = match fill_cover(t) { Ok(s) => s, Err(p) => { r.violation(key("fill-panic"), format!("tri_fill{t:?} panicked: {p}"), case()); return; } };
     let ti = t.map(|(x, y)| (exact(x), exact(y)));
-    let mut covered = std::collections::HashSet::new();
+    let mut covered = std::collections::BTreeSet::new();
     let mut last_y: Option<usize> = None;
     for s in &sls {
         if let Some(ly) = last_y { if s.y <= ly { r.violation(key("scanline-order"), format!("scanline y={} after y={ly}", s.y), case()); return; } }
